@@ -26,6 +26,7 @@ RULE = (
     "grids) / rejected calls on one MixedDimensionalGrid that starts empty or from a meshed 2d fracture configuration; after "
     "every step listings (all dim/codim filters), pair maps, neighbour queries and boundary grids are compared with the model. "
     "Non-trivial = at least 3 applied mutations or one rejected call; distinct = distinct sequence of (op kind, outcome, dims)."
+    ' Since the second session: 3-d meshed starts (subdomains of all four dimensions), a co-dimension-0 pair with a real face map, copy() (checked in both directions), printing, a second container used in between, pair lists and grid lists reused by the caller, edited returned lists, the less travelled entry points (dim_min/dim_max, num_subdomain_cells, sort_subdomains/sort_interfaces, return_data listings); drawn observation frequency.'
 )
 STATE_ABSTRACTION = "(subdomains per dimension capped at 3, interfaces capped at 4, boundary grids capped at 4)"
 ASSUMPTIONS = [
